@@ -1022,3 +1022,58 @@ async fn d27_second_commit_after_failed_commit_reports_success() {
 	assert!(second.is_err(), "D27: second commit() of a transaction whose commit failed returned Ok(()) -- nothing was written");
 	assert_eq!(tree.begin().unwrap().get(b"k").unwrap().as_deref(), Some(&b"from-winner"[..]));
 }
+
+fn d29_copy_dir(src: &std::path::Path, dst: &std::path::Path) {
+	std::fs::create_dir_all(dst).unwrap();
+	for e in std::fs::read_dir(src).unwrap() {
+		let e = e.unwrap();
+		let p = e.path();
+		let q = dst.join(e.file_name());
+		if p.is_dir() {
+			d29_copy_dir(&p, &q);
+		} else if e.file_name() != "LOCK" {
+			std::fs::copy(&p, &q).unwrap();
+		}
+	}
+}
+
+// D29: when one WAL segment does not fit one recovery memtable (smaller max_memtable_size at reopen, or skiplist height
+// randomness at the capacity limit), replay_wal splits it into two memtables that both carry the segment's id.  Recovery
+// flushes the first with log_number = segment + 1 while the second half lives only in memory and the writer keeps appending
+// to the same segment: after the next crash that segment is skipped -- acknowledged commits are lost.
+#[tokio::test(flavor = "multi_thread")]
+async fn d29_split_segment_recovery_loses_the_second_half() {
+	let d = td();
+	let big = mk_opts(d.path().to_path_buf(), |o| { o.max_memtable_size = 1 << 20; o.flush_on_close = false; });
+	let val = vec![b'x'; 1024];
+	let n = 600usize; // ~600 KiB in ONE segment, no rotation with a 1 MiB memtable
+	{
+		let t = Tree::new(Arc::clone(&big)).unwrap();
+		for i in 0..n {
+			put(&t, format!("key-{i:05}").as_bytes(), &val).await;
+		}
+		t.flush_wal(true).unwrap();
+		// crash image 1
+		let img1 = td();
+		d29_copy_dir(d.path(), img1.path());
+		drop(t);
+		// generation 2: reopen the image with a smaller (valid) memtable size -> the segment is split during replay
+		let small = mk_opts(img1.path().to_path_buf(), |o| { o.max_memtable_size = 256 << 10; o.flush_on_close = false; });
+		let t2 = Tree::new(Arc::clone(&small)).unwrap();
+		for i in 0..n {
+			assert!(t2.begin().unwrap().get(format!("key-{i:05}").as_bytes()).unwrap().is_some(), "precondition: generation 2 sees key {i}");
+		}
+		put(&t2, b"after-recovery", b"acknowledged").await;
+		t2.flush_wal(true).unwrap();
+		// crash image 2 (process crash model: all completed writes kept)
+		let img2 = td();
+		d29_copy_dir(img1.path(), img2.path());
+		drop(t2);
+		let again = mk_opts(img2.path().to_path_buf(), |o| { o.max_memtable_size = 256 << 10; o.flush_on_close = false; });
+		let t3 = Tree::new(Arc::clone(&again)).unwrap();
+		let lost: Vec<usize> = (0..n).filter(|i| t3.begin().unwrap().get(format!("key-{i:05}").as_bytes()).unwrap().is_none()).collect();
+		let late = t3.begin().unwrap().get(b"after-recovery").unwrap();
+		assert!(lost.is_empty() && late.is_some(), "D29: after the second crash {} of {} recovered commits are gone (first: {:?}); commit made after recovery present: {}",
+			lost.len(), n, lost.first(), late.is_some());
+	}
+}
